@@ -45,9 +45,10 @@ def _evaluate_multinet(multinet, levelorder, ctrl_variables, **kwargs):
     rel_nets = _relevant_nets(multinet, levelorder)
     for net_name in multinet['nets'].keys():
         net = multinet['nets'][net_name]
-        rel_levelorder = levelorder[rel_nets[net_name]]
+        # rel_nets[net_name] is a single bool: indexing the (n, 2) level order with it would add an axis
+        # and break the (controller, net) pairs that _evaluate_net hands to the repair step
         ctrl_variables['nets'][net_name] = _evaluate_net(
-            net, rel_levelorder, ctrl_variables['nets'][net_name], **kwargs) if np.any(
+            net, levelorder, ctrl_variables['nets'][net_name], **kwargs) if np.any(
             rel_nets[net_name]) else ctrl_variables['nets'][net_name]
         multinet_converged += [ctrl_variables['nets'][net_name]['converged']]
     ctrl_variables['converged'] = np.all(multinet_converged)
